@@ -388,7 +388,7 @@ class Run:
             "samples": (self.samples or [])[:6] + [{"obligation": o["name"], "axioms": o["axioms"]} for o in discharged[:6]],
             "traces_validated_against_impl": self.evals,
             "obligation_names": [o["name"] + ("" if o["status"] == "discharged" else f" [{o['status']}]") for o in obl],
-            "branch_tags": dict(self.tags.most_common(40)),
+            "branch_tags": dict(self.tags.most_common(60)),
             "input_sizes": {str(k): v for k, v in sorted(self.sizes.items(), key=lambda kv: str(kv[0]))[:40]},
             "correspondence_disagreements": len(self.disagreements),
             "known_findings_reproduced": {k: len(v) for k, v in matched.items()},
